@@ -796,13 +796,28 @@ def run_validate_impl(case):
     r = attempt(obs.validate_steps, proc)
     out["validate"] = {"ok": True} if "ok" in r else r
     if case["run"]:
-        probes.reset()
-        proc2 = build(world)
-        obs2 = Observation(parameters=[ParameterValues(key=".".join(key), values=list(vals))], mode=case["mode"])
-        rr = attempt(pyx.run, obs2, proc2.detector, proc2.pipeline)
-        out["run"] = {"ok": True} if "ok" in rr else rr
-        out["calls"] = len(probes.LOG)
+        import dask
+
+        # both observation paths, end to end: sequential and with_dask (synchronous scheduler, results computed)
+        for tag_, with_dask in (("", False), ("_dask", True)):
+            probes.reset()
+            proc2 = build(world)
+            obs2 = Observation(parameters=[ParameterValues(key=".".join(key), values=list(vals))], mode=case["mode"],
+                               with_dask=with_dask)
+
+            def go():
+                with dask.config.set(scheduler="synchronous"):
+                    res = pyx.run(obs2, proc2.detector, proc2.pipeline)
+                    return res.compute() if hasattr(res, "compute") else res
+
+            rr = attempt(go)
+            out["run" + tag_] = {"ok": True} if "ok" in rr else rr
+            out["calls" + tag_] = len(probes.LOG)
     return out
+
+
+def run_paths(impl):
+    return [(t or "sequential", impl["run" + s_], impl.get("calls" + s_, 0)) for t, s_ in (("", ""), ("with_dask", "_dask")) if "run" + s_ in impl]
 
 
 def validate_predicate(case, impl):
@@ -819,18 +834,25 @@ def validate_predicate(case, impl):
     if cls in ("undeclared", "unknown_model", "absent_group", "detector_typo"):
         if ok:
             return "sweep-accepts-undeclared", "sweep key %r names nothing the configuration declares, validate_steps accepted it" % key
-        if impl.get("run", {}).get("ok") or impl.get("calls"):
-            return "sweep-ran-undeclared", "sweep over %r: %d model call(s) happened / run result %s" % (key, impl.get("calls", 0), impl.get("run"))
+        for path, run, calls in run_paths(impl):
+            if "ok" in run or calls:
+                return ("sweep-ran-undeclared:" + path, "sweep over %r (%s observation): %d model call(s) happened / run result %s"
+                        % (key, path, calls, run))
         return None
     if cls == "disabled":
         if ok:
             return "sweep-accepts-disabled", "sweep over an argument of the disabled model %r was accepted" % key
-        if impl.get("calls"):
-            return "sweep-ran-disabled", "sweep over %r ran %d model call(s)" % (key, impl["calls"])
+        for path, run, calls in run_paths(impl):
+            if "ok" in run or calls:
+                return ("sweep-ran-disabled:" + path, "sweep over the argument %r of a disabled model (%s observation) was not refused "
+                        "before running: run result %s, %d model call(s)" % (key, path, strip_msg(run), calls))
         return None
     if cls == "declared":
         if not ok:
             return "sweep-rejects-declared", "sweep over the declared argument %r of an enabled model was refused: %s" % (key, impl["validate"])
+        for path, run, calls in run_paths(impl):
+            if "err" in run and run["err"] in ("KeyError", "AttributeError") and ("Missing parameter" in run.get("msg", "") or "does not exist" in run.get("msg", "")):
+                return "sweep-run-rejects-declared:" + path, "sweep over %r (%s observation) refused at run time: %s" % (key, path, run)
         return None
     if cls == "enabled_flag":
         if not ok:
@@ -1049,7 +1071,7 @@ def body(ck: common.Check):
         key, vals, cls = gen_validate_case(rng, world)
         cls = classify_sweep(world, key, cls)
         val_cases.append({"stream": "validate", "world": world, "key": key, "values": vals, "class": cls,
-                          "mode": rng.choice(["product", "sequential"]), "run": True if quick and i % 2 == 0 else (not quick and i % 4 == 0)})
+                          "mode": rng.choice(["product", "sequential"]), "run": cls in ("disabled", "undeclared") or (i % 2 == 0 if quick else i % 4 == 0)})
 
     # ---- stream 4: histories (several assignments on one processor interleaved with copies)
     hist_cases = []
@@ -1146,8 +1168,8 @@ def body(ck: common.Check):
         ck.count("validate:class=" + c["class"])
         if "validate" in im:
             ck.count("validate:result=" + ("ok" if "ok" in im["validate"] else im["validate"]["err"]))
-        if "run" in im:
-            ck.count("validate:run=" + ("ok" if "ok" in im["run"] else im["run"]["err"]))
+        for path, run, calls in run_paths(im):
+            ck.count("validate:run[%s]=%s" % (path, "ok" if "ok" in run else run["err"]))
         why = validate_predicate(c, im)
         if why is not None:
             ck.violation("C08:" + why[0], why[1], {"case": c, "impl": {k: v for k, v in im.items() if k != "det_tree"}})
@@ -1185,7 +1207,7 @@ def body(ck: common.Check):
                "0, 1, 2, many and shapes (0,), (1,), (1,1), (1,1,1), (2,), 0-d, (2,3); read-back compared as (type, dtype, shape, "
                "exact values); "
                "validate: sweep steps over declared / undeclared / disabled / unknown keys and enabled flags, product and "
-               "sequential mode, half of them also run end to end; non-trivial = every key / validate case, eval cases other "
+               "sequential mode, half of them also run end to end on BOTH observation paths (sequential and with_dask, synchronous scheduler, results computed); non-trivial = every key / validate case, eval cases other "
                "than None/True/False; distinct by canonical JSON")
     ck.assumptions = [
         "a key names an existing setting iff plain Python attribute access along its parts succeeds on the freshly built processor "
